@@ -116,6 +116,9 @@ func StartKeygen(group curve.Curve, receiver bool, selfID, otherID party.ID, sec
 			return nil, fmt.Errorf("keygen.StartKeygen: %w", err)
 		}
 
+		if (secretShare == nil) != (public == nil) {
+			return nil, errors.New("keygen.StartKeygen: secret share and public key must be given together")
+		}
 		refresh := true
 		if secretShare == nil && public == nil {
 			secretShare = sample.Scalar(rand.Reader, group)
